@@ -30,6 +30,7 @@ def run_proof_job(args):
     try:
         from .unyt_domain import UnytDomain
         from . import np_domain  # noqa: F401 (installs the array model)
+        from . import handlers  # noqa: F401 (numpy implementation model)
         smt.reset_stats()
         repo = Repo(repo_root)
         dom = UnytDomain(repo)
